@@ -409,6 +409,39 @@ func genRate(r *hx.RNG, rel, conc int) []string {
 		fmt.Sprintf("n:%d", n), fmt.Sprintf("c:%d", nc)}
 }
 
+// genRateFinite: the shape's last (or only) throttle has a FINITE end; the response
+// starts before, at, or inside the throttle and has more than two intervals' worth
+// of bytes inside it, so the minimum-delay oracle bites (>= 1 s).
+func genRateFinite(r *hx.RNG, where int) []string {
+	bw := r.Range(200, 600)
+	a := r.Range(50, 400)
+	inside := 2*bw + 1 + r.Intn(bw/2)
+	b := a + inside + r.Intn(200)
+	var rs, n int
+	switch where {
+	case 0: // starts before the throttle
+		rs = r.Intn(a)
+		n = (a - rs) + inside
+	case 1: // starts exactly at its first byte
+		rs = a
+		n = inside
+	default: // starts inside
+		rs = a + r.Intn(b-a-inside+1)
+		n = inside
+	}
+	toks := []string{"R", fmt.Sprintf("S:%s:0", hx.HexS(rxA))}
+	if r.Chance(1, 2) { // an earlier throttle, so that the finite one is the last of several
+		toks = append(toks, fmt.Sprintf("T:%s:%d", hx.HexS(fmt.Sprintf("0-%d", a/2)), 5000000))
+		if rs < a/2 {
+			rs = a / 2
+			n = (a - rs) + inside
+		}
+	}
+	toks = append(toks, fmt.Sprintf("T:%s:%d", hx.HexS(fmt.Sprintf("%d-%d", a, b)), bw), "|",
+		fmt.Sprintf("n:%d", n), "c:1", fmt.Sprintf("rs:%d", rs))
+	return toks
+}
+
 // genIntegrationSlow: proxy on a shaped listener, the shape's global bucket is
 // smaller than the throttle the response is in (or there is none): the body has
 // to wait for a drain and must still arrive complete.
@@ -521,6 +554,15 @@ func generate(cfg *hx.Config, emit func(kind string, in []string)) {
 			fmt.Sprintf("H:%d:0:-1", r.Intn(8)), "|", fmt.Sprintf("n:%d", r.Range(8, 40)), fmt.Sprintf("c:%d", r.Range(6, 12)), "rep:300"}
 		slow = append(slow, in)
 		cfg.Count("rate-stress")
+	}
+	// finite-end last throttle, response starting before / at / inside it
+	nfin := 3
+	if cfg.Thorough() {
+		nfin = 12
+	}
+	for k := 0; k < nfin; k++ {
+		slow = append(slow, genRateFinite(rng.Fork(), k%3))
+		cfg.Count(fmt.Sprintf("rate-finite-end-where%d", k%3))
 	}
 	nis := 2
 	if cfg.Thorough() {
